@@ -177,7 +177,7 @@ class Ctx:
         os.makedirs(fdir)
         testbin = os.path.join(BUILD if ALT else os.path.join(HARNESS, 'bin'), pkg + '.fuzz.test')
         os.makedirs(os.path.dirname(testbin), exist_ok=True)
-        rc, o = sh(['go', 'test', '-c', '-tags', 'verif', '-o', testbin, './' + pkg], cwd=HARNESS, env=go_env(), timeout=900)
+        rc, o = sh(['go', 'test', '-c', '-fuzz=.', '-tags', 'verif', '-o', testbin, './' + pkg], cwd=HARNESS, env=go_env(), timeout=900)
         if rc != 0:
             raise BuildError('go test -c ./%s failed:\n%s' % (pkg, o[-2000:]))
         cache = os.path.join(BUILD, 'fuzzcache', pkg, target)
